@@ -392,6 +392,9 @@ class Parser:
     def parse_prefix_expression(self, stream: TokenStream) -> Expression:
         tok = stream.next_token()
         assert tok.type_ == TokenType.NOT
+        if stream.current.type_ == TokenType.NOT:
+            # `!` applies to a test or a parenthesised expression, not to another `!`.
+            raise JSONPathSyntaxError("unexpected '!'", token=stream.current)
         right = self.parse_filter_expression(stream, precedence=self.PRECEDENCE_PREFIX)
         self._raise_for_uncompared_value(right, tok)
         return PrefixExpression(tok, operator="!", right=right)
